@@ -39,6 +39,7 @@ import (
 	"fmt"
 	"net/http"
 	"net/http/httptest"
+	"net/url"
 	"os"
 	"os/exec"
 	"path/filepath"
@@ -57,6 +58,7 @@ import (
 	"google.golang.org/protobuf/encoding/prototext"
 	"google.golang.org/protobuf/proto"
 
+	"github.com/ory/keto/ketoapi"
 	rts "github.com/ory/keto/proto/ory/keto/relation_tuples/v1alpha2"
 	"github.com/ory/keto/verif/apih"
 	"github.com/ory/keto/verif/ev"
@@ -192,7 +194,60 @@ func c13Families(thorough bool) []*c13Family {
 	var fams []*c13Family
 	fams = append(fams, c13RestFamilies(thorough)...)
 	fams = append(fams, c13GrpcFamilies(thorough)...)
+	fams = append(fams, c13DataFamily())
 	return fams
+}
+
+// c13DataFamily: well-formed requests whose answer walks over a LARGE stored node - a subject set with 1001 and
+// one with 2001 member subject sets (more than one / two pages of every listing and traversal in the engines).
+// "No request can crash a handler" also when the crash depends on the stored data, not on the request's shape.
+func c13DataFamily() *c13Family {
+	return &c13Family{Route: "data-shaped", Fields: []c13Field{
+		c13F("node", "wide1001", []string{"wide1001", "wide2001"}),
+		c13F("subject", "nobody", []string{"nobody", "member-of-last", "member-of-first"}),
+		c13F("request", "rest-check", []string{"rest-check", "rest-check-post", "rest-batch", "grpc-check", "grpc-batch", "rest-expand", "grpc-expand", "rest-list", "grpc-list", "rest-list-page-1000"}),
+	}, Build: func(ch map[string]string) *c13Req {
+		obj := ch["node"]
+		sub := map[string]string{"nobody": "nobody", "member-of-last": "wide-last", "member-of-first": "wide-first"}[ch["subject"]]
+		tp := axID("Group", obj, "members", sub)
+		vals := apih.TupleValues(tp)
+		set := &ketoapi.SubjectSet{Namespace: "Group", Object: obj, Relation: "members"}
+		switch ch["request"] {
+		case "rest-check":
+			return c13Rest(apih.Read, "GET", c13Target(apih.RouteCheckOAPI, vals.Encode()), nil)
+		case "rest-check-post":
+			return c13Rest(apih.Read, "POST", c13Target(apih.RouteCheck, ""), []byte(c04JSON(tp)))
+		case "rest-batch":
+			return c13Rest(apih.Read, "POST", c13Target(apih.RouteBatchCheck, ""), []byte(`{"tuples":[`+c04JSON(tp)+`]}`))
+		case "grpc-check":
+			return &c13Req{Name: "Check", Msg: &rts.CheckRequest{Tuple: apih.ProtoTuple(tp)}, GRPC: func(c *apih.Client, ctx context.Context) (proto.Message, error) {
+				return c.GCheckReq(&rts.CheckRequest{Tuple: apih.ProtoTuple(tp)})
+			}}
+		case "grpc-batch":
+			return &c13Req{Name: "BatchCheck", Msg: &rts.BatchCheckRequest{Tuples: []*rts.RelationTuple{apih.ProtoTuple(tp)}}, GRPC: func(c *apih.Client, ctx context.Context) (proto.Message, error) {
+				return c.GBatchCheck([]*rts.RelationTuple{apih.ProtoTuple(tp)}, 0)
+			}}
+		case "rest-expand":
+			v := url.Values{"namespace": {set.Namespace}, "object": {set.Object}, "relation": {set.Relation}, "max-depth": {"2"}}
+			return c13Rest(apih.Read, "GET", c13Target(apih.RouteExpand, v.Encode()), nil)
+		case "grpc-expand":
+			return &c13Req{Name: "Expand", Msg: &rts.ExpandRequest{Subject: apih.ProtoSubject(nil, set), MaxDepth: 2}, GRPC: func(c *apih.Client, ctx context.Context) (proto.Message, error) {
+				return c.GExpand(apih.ProtoSubject(nil, set), 2)
+			}}
+		case "rest-list", "rest-list-page-1000":
+			v := url.Values{"namespace": {"Group"}, "object": {obj}}
+			if ch["request"] == "rest-list-page-1000" {
+				v.Set("page_size", "1000")
+			}
+			return c13Rest(apih.Read, "GET", c13Target(apih.RouteAdmin, v.Encode()), nil)
+		case "grpc-list":
+			q := &ketoapi.RelationQuery{Namespace: axS("Group"), Object: axS(obj)}
+			return &c13Req{Name: "ListRelationTuples", Msg: &rts.ListRelationTuplesRequest{RelationQuery: apih.ProtoQuery(q), PageSize: 1000}, GRPC: func(c *apih.Client, ctx context.Context) (proto.Message, error) {
+				return c.GList(apih.ProtoQuery(q), 1000, "")
+			}}
+		}
+		return nil
+	}}
 }
 
 // c13ValidRequestLine: httptest.NewRequest panics on a request line net/http
@@ -280,6 +335,15 @@ func c13Seed(s *apih.Server) {
 	var deltas []*rts.RelationTupleDelta
 	for _, tu := range c08Store(2, false) {
 		deltas = append(deltas, axDelta(rts.RelationTupleDelta_ACTION_INSERT, tu))
+	}
+	// two wide nodes (see c13DataFamily): Group:wide1001#members and Group:wide2001#members
+	for _, n := range []int{1001, 2001} {
+		obj := fmt.Sprintf("wide%d", n)
+		for i := 1; i <= n; i++ {
+			deltas = append(deltas, axDelta(rts.RelationTupleDelta_ACTION_INSERT, axSet("Group", obj, "members", "Group", fmt.Sprintf("%s-g%04d", obj, i), "members")))
+		}
+		deltas = append(deltas, axDelta(rts.RelationTupleDelta_ACTION_INSERT, axID("Group", fmt.Sprintf("%s-g%04d", obj, 1), "members", "wide-first")),
+			axDelta(rts.RelationTupleDelta_ACTION_INSERT, axID("Group", fmt.Sprintf("%s-g%04d", obj, n), "members", "wide-last")))
 	}
 	if _, err := s.Client().GTransact(deltas); err != nil {
 		panic(fmt.Sprintf("c13: seeding: %v", err))
